@@ -10,6 +10,7 @@ import traceback
 import warnings
 
 import greenback
+import outcome
 import trio
 
 import stackscope
@@ -51,6 +52,10 @@ class AM:
         return False
 
 
+class Resumed(Exception):
+    pass
+
+
 def abort_fn(_):
     return trio.lowlevel.Abort.FAILED
 
@@ -66,6 +71,7 @@ class Ctl:
         self.nobs = 0
         self.nsince = 0
         self.since_bad = []
+        self.parks = 0
 
     # ---- script
     def pop(self):
@@ -190,7 +196,10 @@ class Ctl:
             except BaseException as ex:
                 self.bad.append({"step": self.k, "where": "outside", "what": "extract raised %r" % (ex,)})
             finally:
-                trio.lowlevel.reschedule(task)
+                # resumed by a value and by an exception in turn: the bridging frame greenback leaves on each greenlet
+                # stack is outcome.Value.send or outcome.Error.send accordingly (hidden, both)
+                self.parks += 1
+                trio.lowlevel.reschedule(task, outcome.Error(Resumed()) if self.parks % 2 else outcome.Value(None))
         trio.lowlevel.current_trio_token().run_sync_soon(report)
 
 
@@ -199,7 +208,10 @@ async def a_frame(ctl, idx):
         ctl.observe_inside()
         if ctl.can_park():
             ctl.arm()
-            await trio.lowlevel.wait_task_rescheduled(abort_fn)
+            try:
+                await trio.lowlevel.wait_task_rescheduled(abort_fn)
+            except Resumed:
+                pass
         act = ctl.pop()
         if act is None or act["a"] == "ret":
             return
@@ -233,7 +245,10 @@ def s_frame(ctl, idx):
         ctl.observe_inside()
         if ctl.can_park():
             ctl.arm()
-            greenback.await_(trio.lowlevel.wait_task_rescheduled(abort_fn))
+            try:
+                greenback.await_(trio.lowlevel.wait_task_rescheduled(abort_fn))
+            except Resumed:
+                pass
         act = ctl.pop()
         if act is None or act["a"] == "ret":
             return
